@@ -233,6 +233,7 @@ def run(prog, chk):
         "feature writer objects keep no per-font state outside the per-call self.context; memoising decorators only on reviewed per-compile classes (R08.7)",
         "filter objects keep no state outside the per-call self.context: a filter object reused for another font gives what a fresh one gives (R08.8, shared with C14)",
         "what getAttrWithFallback returns (the font's own info value, or the package-wide default object) is never modified in place: a compile does not change what the next compile of the same font - or of any other font - reads (R08.9, shared with C16)",
+        "where the package measures a glyph through a try / except AttributeError fallback for the two UFO libraries, both branches ask for the same quantity (R08.10)",
     ]
     chk.not_decided += ["byte identity itself", "behavioural differences between defcon and ufoLib2", "ordering of dict-typed UFO containers (treated as content)"]
     chk.assumptions += ["glyph-class literals and sets handed to fontTools as sets are order-neutral sinks (coverage / class tables are sorted by glyph id)",
@@ -248,6 +249,7 @@ def run(prog, chk):
     chk.guard(check_no_filter_state, prog, chk, "R08.8")
     from .c16 import r167
     chk.guard(r167, prog, chk, "R08.9")
+    chk.guard(r0810, prog, chk)
 
 
 # ----------------------------------------------------------------------------- R08.1
@@ -795,7 +797,39 @@ def r087(prog, chk, rule="R08.7"):
     chk.minimum(rule, 10)
 
 
+
+# ----------------------------------------------------------------------------- R08.10
+PROTOCOL_PAIRS = {"getBounds": "bounds", "getControlBounds": "controlPointBounds"}  # ufoLib2 method -> defcon attribute of the same quantity
+
+
+def r0810(prog, chk):
+    """A UFO opened with defcon and the same UFO opened with ufoLib2 compile to the same font: where the package asks the two
+    libraries for a measurement through a try / except AttributeError fallback, both branches ask for the SAME quantity
+    (exact bounds with exact bounds, control-point bounds with control-point bounds)."""
+    ix = prog.ix
+    n = 0
+    for fi in ix.functions.values():
+        if isinstance(fi.node, ast.Lambda):
+            continue
+        for tr in [t for t in A.body_nodes(fi.node) if isinstance(t, ast.Try)]:
+            hs = [h for h in tr.handlers if h.type is not None and "AttributeError" in T(h.type)]
+            if not hs:
+                continue
+            meths = {c.func.attr for st in tr.body for c in ast.walk(st) if isinstance(c, ast.Call) and isinstance(c.func, ast.Attribute) and c.func.attr in PROTOCOL_PAIRS}
+            attrs = {a.attr for h in hs for st in h.body for a in ast.walk(st) if isinstance(a, ast.Attribute) and a.attr in PROTOCOL_PAIRS.values() and not isinstance(ix.parent(a), ast.Call)}
+            if not meths and not attrs:
+                continue
+            n += 1
+            ok = bool(meths) and bool(attrs) and {PROTOCOL_PAIRS[m_] for m_ in meths} == attrs
+            chk.ob("R08.10", f"{fi.short}|{A.keytext(fi.node, tr)[:60]}|both UFO libraries are asked for the same measurement", ok, where(fi, tr), detail=f"ufoLib2: {sorted(meths)}; defcon: {sorted(attrs)}",
+                   message=f"{fi.short}: the ufoLib2 branch measures {sorted(meths)} and the defcon fallback {sorted(attrs)}: the same UFO gives different output depending on the library it was opened with")
+    need(n >= 1, "no library-protocol fallback for bounds found")
+    chk.minimum("R08.10", 1)
+
+
 MUTANTS = [
+    M("ufoLib2 glyphs measured by control-point bounds, defcon glyphs by exact bounds (seeded C08h)", "ufo2ft/filters/dottedCircle.py", "DottedCircleFilter.check_and_add_anchors",
+      "glyph.getBounds(font)", "glyph.getControlBounds(font)", rule="R08.10"),
     M("BlueScale fallback appends OtherBlues to the font's own BlueValues (seeded C08g)", "ufo2ft/fontInfoData.py", "postscriptBlueScaleFallback",
       "blues = getAttrWithFallback(info, 'postscriptBlueValues')", "blues = getAttrWithFallback(info, 'postscriptBlueValues')\nblues += getAttrWithFallback(info, 'postscriptOtherBlues')", rule="R08.9"),
     M("transformations filter caches its matrix on the instance (seeded C08e / C15c)", "ufo2ft/filters/transformations.py", "TransformationsFilter.set_context",
